@@ -59,7 +59,7 @@ fn tier_for(prop: &str, thorough: bool) -> Tier {
         ("C16", true) => Tier { runs: 30_000_000, secs: 1200 },
         ("C15", false) => Tier { runs: 600_000, secs: 75 },
         ("C15", true) => Tier { runs: 30_000_000, secs: 1200 },
-        ("C12", false) => Tier { runs: 14_000, secs: 75 },
+        ("C12", false) => Tier { runs: 12_000, secs: 75 },
         (_, false) => Tier { runs: 16_000, secs: 75 },
         (_, true) => Tier { runs: 2_000_000, secs: 1200 },
     }
